@@ -429,6 +429,10 @@ def _c16(tier, seed):
         jobs += J('c16.cpp', 'asan-debug', 'fftw', n=8, args=['part=cells'], cxxflags='-DVF_NO_GUARDALLOC', **dl)
         jobs += J('c16.cpp', 'optim', 'fftw', n=6, args=['part=cells'], env={'VF_GUARD': 'after', 'VF_FILL': '0x11'}, **g, **dl)
         jobs += J('c16.cpp', 'optim', 'nayuki-avx', n=6, args=['part=cells'], env={'VF_GUARD': 'after', 'VF_FILL': '0xEE'}, **g, **dl)
+        # valgrind memcheck on the vg variant (optim without AVX-512: the AVX2 inline-asm and .s paths stay on): reduced matrix; sees uninitialised reads and stack accesses in the assembly
+        VG = ['valgrind', '-q', '--error-exitcode=99', '--undef-value-errors=yes', '--leak-check=no']
+        for be in ['spqlios-fma', 'nayuki-avx']:
+            jobs += J('c16.cpp', 'vg', be, n=6, args=['part=cells', 'cells=small'], cxxflags='-DVF_NO_GUARDALLOC', wrapper=VG, crash_is_violation=True, deadline=2400, timeout=3000)
     return jobs
 PROPS['C16'] = dict(
     level='fault_enumeration',
@@ -437,7 +441,7 @@ PROPS['C16'] = dict(
          'oracles by job: guard pages after / before every heap block on the optim build (inline asm and .s accesses), ASan+UBSan build, digests equal under two different fill patterns of fresh memory (xcmp), live heap blocks stationary. '
          'non-trivial = every cell (a full lifecycle) / thread history with FFT use',
     bounds={'quick': 'n in {1,7,8,9,1025} x k in {1,2} with the default layouts, the (l,Bgbit) and (t,basebit) grids for n<=9,k=1, one k=2 n=1025 cell; key material <= 64 MB per cell; thread histories 1-3 threads x {0,1,3} uses x 5 back-ends',
-            'thorough': 'whole matrix n in {1,3,7,8,9,500,630,1024,1025,1100} x k x 6 (l,Bgbit) x 5 (t,basebit) with key material <= 300 MB (excluded cells listed in the evidence); + asan-debug/fftw, guard pages on fftw and nayuki-avx'},
+            'thorough': 'whole matrix n in {1,3,7,8,9,500,630,1024,1025,1100} x k x 6 (l,Bgbit) x 5 (t,basebit) with key material <= 300 MB (excluded cells listed in the evidence); + asan-debug/fftw, guard pages on fftw and nayuki-avx, valgrind memcheck on the vg build for a reduced matrix (n in {1,7,9})'},
     assumptions=['valgrind memcheck cannot execute the -march=native build on this CPU (AVX-512); guard pages on the real optim build are the oracle for the assembly paths', 'guard pages: at most ~24000 live guarded blocks (vm.max_map_count); the rest is served unguarded and counted'],
     jobs=_c16, max_report=10,
 )
